@@ -171,7 +171,11 @@ impl Accept {
                 Some(WakerInterest::WorkerAvailable(idx)) => {
                     drop(guard);
 
-                    self.avail.set_available(idx, true);
+                    // A late notification from a worker whose handle has been removed already
+                    // must not mark an index that no handle owns as available.
+                    if self.handles.iter().any(|handle| handle.idx() == idx) {
+                        self.avail.set_available(idx, true);
+                    }
 
                     if !self.paused {
                         self.accept_all(sockets);
